@@ -21,7 +21,7 @@ def canon_val(v):
 
 
 def canon_outcome(status, vals):
-    if status in ("E", "P", "T", "C"):
+    if status in ("E", "P", "T", "C") or status.startswith("X:"):
         return status
     if vals == "-":
         return status + " -"
@@ -58,10 +58,11 @@ def compare(ctx, impl_lines, label):
         ctx.case(inp, nontrivial(inp, got))
         ctx.count(label + ":" + mode + ":" + kind)
         ctx.count("outcome:" + ("error" if got == "E" else "empty" if got.endswith(" -") else "capped" if got.startswith("cap") else "finite"))
-        if status in ("P", "T", "C"):
+        if status in ("P", "T", "C") or status.startswith("X:"):
             ctx.violation(inp, {"P": "Go panic", "T": "math.type(i) disagrees with the loop variable's type",
-                                "C": "the literal rendering does not compile"}[status],
-                          "c16 replay %s\nobserved %s\n" % (inp, got))
+                                "C": "the literal rendering does not compile",
+                                "X": "the loop disturbed / re-read its control expressions: " + status[2:].replace("-", " ")}[status[0]],
+                          "c16 replay %s\nobserved %s %s\nexpected %s\n" % (inp, got, vals, " | ".join(alts)))
             continue
         # level A: the manual
         if flags:
@@ -103,7 +104,9 @@ def selftest_fadd(ctx, h):
 
 def run(ctx):
     ctx.rule = ("cases = (rendering, initial value, limit, step) run through compiled Lua `for i = a, b, c do emit(i, math.type(i)) end` "
-                "capped at 40 iterations; the lattice (ints around 0, +-2^53, min/maxinteger; floats +-2^63 and neighbours, +-inf, NaN, "
+                "capped at 40 iterations (also with the three control values coming from locals the body reassigns, upvalues changed by a called "
+                "function, globals, a call / a table field / a call each evaluated once and in order, calls returning several values, closures "
+                "capturing the loop variable, a yield in the body; the variables the values came from must be left untouched); the lattice (ints around 0, +-2^53, min/maxinteger; floats +-2^63 and neighbours, +-inf, NaN, "
                 "fractions; numeric strings; non-numbers) is enumerated exhaustively as triples, plus seeded random triples placed near "
                 "start + k*step; non-trivial = the loop runs >= 1 iteration or raises, or an operand is from a boundary class / mixed "
                 "int-float; distinct by canonical text")
@@ -130,7 +133,7 @@ def run(ctx):
     lines = out.split("\n")[:-1]
     compare(ctx, lines, "lattice")
     ctx.extra["exhaustive_lattice_lines"] = len(lines)
-    n = 15000 if ctx.tier == "quick" else 500000
+    n = 10000 if ctx.tier == "quick" else 500000
     rc, out, err = common.run_harness(h, ["random", str(n)])
     if rc != 0:
         raise common.BuildError("c16 harness failed: " + err[-2000:])
